@@ -107,8 +107,8 @@ def register(R):
 
     # ------------------------------------------------------------------ controller
     CTRL = f'{M}:TransferCoordinatorController'
-    R.add_fields(CTRL, _lock=LockT(), _tracked_transfer_coordinators=SetT('U'))
-    R.monitor(CTRL, lock='_lock', fields=dict(_tracked_transfer_coordinators=SetT('U')),
+    R.add_fields(CTRL, _lock=LockT(), _tracked_transfer_coordinators=SetT('U', elem_kind='coordinator'))
+    R.monitor(CTRL, lock='_lock', fields=dict(_tracked_transfer_coordinators=SetT('U', elem_kind='coordinator')),
               invariant=lambda v, ref: {}, props=['C04', 'C18'])
     SHK = ObjT(CTRL, shared=True)
     R.contract(f'{CTRL}.add_transfer_coordinator', props=['C04', 'C18'], self_type=SHK,
